@@ -527,8 +527,10 @@ func (sf *file) GetPassthroughFd(mergeBufferSize int64, mergeWorkerCount int) (u
 		if !ok {
 			break
 		}
-		// Check if any chunk size exceeds merge buffer size to avoid bounds out of range
-		if chunkSize > mergeBufferSize {
+		// Check if any chunk size exceeds merge buffer size, or any chunk lies across a
+		// boundary of the merge buffer, to avoid bounds out of range
+		if chunkSize > mergeBufferSize ||
+			(chunkSize > 0 && chunkOffset/mergeBufferSize != (chunkOffset+chunkSize-1)/mergeBufferSize) {
 			hasLargeChunk = true
 		}
 		chunks = append(chunks, chunkData{
